@@ -205,6 +205,10 @@ func Generate(r *rand.Rand, k Knobs) *Module {
 					p.Decoys = append(p.Decoys, d)
 				}
 			}
+			if r.IntN(3) == 0 {
+				// a predeclared identifier redeclared at package scope (legal Go)
+				p.Decoys = append(p.Decoys, "falseconst")
+			}
 		}
 		na := r.IntN(4)
 		perm := r.Perm(len(anonPool))
@@ -529,6 +533,14 @@ func (m *Module) genInjector(r *rand.Rand, k Knobs, p *Pkg, j int) *Injector {
 		target = cand[len(cand)-1-r.IntN(minInt(len(cand), 4))]
 	} else {
 		target = cand[r.IntN(len(cand))]
+	}
+	if hasDecoy(p, "falseconst") && j == 0 {
+		// in a package that redeclares false, one injector returns a bool if a fallible one can be had
+		for _, t := range cand {
+			if t.Kind == "bool" && t.Src.Kind == "func" && t.Src.HasErr {
+				target = t
+			}
+		}
 	}
 	inj := &Injector{Pkg: p.Idx, File: r.IntN(p.NFiles), Name: fmt.Sprintf("Init%s%d", export(p.Name), j)}
 	inj.Result = m.formFor(r, target)
